@@ -672,6 +672,14 @@ class FaultRun(object):
                      '+'.join(what))
         self.stats['outcomes'][state] = \
             self.stats['outcomes'].get(state, 0) + 1
+        # aggregates are recorded in the same transaction as their first
+        # association: a crash must not leave one behind on its own
+        if nat['aggregate_uuids'] not in (self.nat0['aggregate_uuids'],
+                                          self.twin_nat['aggregate_uuids']):
+            self.add({'C18'}, 'crash-left-partial-effect',
+                     desc + ': aggregate records %r are neither the '
+                     'pre-state\'s nor the complete result\'s' % (
+                         nat['aggregate_uuids'],), plan, 'aggregates')
         extra_cons = [u for u in core['consumers']
                       if u not in s['consumers']]
         if extra_cons:
